@@ -163,7 +163,7 @@ def key_reached(r, m):
     return any(k == frozenset([m]) for (_, k) in r.nodes)
 
 
-@rule('R18.3', ['C18'], floor=3, clause='lease instants are computed from the ACK: expires_at = now + min(lease, max_lease); the bound-state poll deadline never exceeds expires_at')
+@rule('R18.3', ['C18', 'C13'], floor=3, clause='lease instants are computed from the ACK: expires_at = now + min(lease, max_lease); the bound-state poll deadline never exceeds expires_at')
 def r18_3(ctx):
     F = ctx.F
     pa = ctx.method(D, 'parse_ack')
